@@ -4,7 +4,7 @@
 Decides one property on /repo's current working tree (DESIGN.md sections 2.4 and 7):
   1. translator  (Rust constants/tables -> coq/theories/Gen/*.v)
   2. proofs      (make theories/Props/<id>.vo: every theorem about the model re-checked, audit of axioms)
-  3. tie         (correspondence: model evaluated inside Coq == crate, on generated cases, debug + release)
+  3. tie         (correspondence: extracted OCaml model == crate on generated cases, debug + release; a sample re-run in Coq)
   4. oracle      (the property itself, evaluated on the crate's observations)
   5. report      (evidence file; VIOLATION / KNOWN-FINDING lines; exit code)
 """
@@ -137,7 +137,10 @@ def main():
         cov["checker_cmd"] = "cd coq && make -j16 %s (coqc 8.16.1, full .vo build) ; coqc audit (Print Assumptions per theorem)%s" % (
             props_target, " ; coqchk -o" if coqchk_out is not None else "")
         allax = sorted({a for axs in assumptions.values() for a in axs})
-        prims = [a for a in allax if a.startswith(("PrimFloat.", "PrimInt63.", "Uint63.")) and not a.endswith("_spec")]
+        # PrimFloat.* / PrimInt63.* are the kernel's primitive types and operations; everything else (FloatAxioms.*, the
+        # Uint63 specification axioms such as Uint63.of_to_Z / eqb_refl / *_spec, classical and extensionality axioms) is an
+        # axiom declared by the standard library
+        prims = [a for a in allax if a.startswith(("PrimFloat.", "PrimInt63."))]
         axioms = [a for a in allax if a not in prims]
         cov["trusted_base"] = [
             "Coq 8.16.1 kernel incl. vm_compute (no native_compute)",
@@ -146,7 +149,9 @@ def main():
             "kernel primitives reported by Print Assumptions (primitive floats / 63-bit integers, not axioms): " +
             (", ".join(prims) if prims else "none"),
             "tools/translate.py (constants/tables from the Rust sources into Gen/*.v)",
-            "correspondence check: harness/ (Rust), tools/*.py, model evaluated by vm_compute on the same cases",
+            "correspondence check: harness/ (Rust), tools/*.py, the model extracted to OCaml (ocaml/Extract.v.in: ExtrOcamlBasic, "
+            "ExtrOCamlFloats, ExtrOCamlInt63; ocaml/driver.ml; ocamlfind ocamlopt 4.13.1 linked with coq-core.kernel) and evaluated "
+            "on the same cases; a sample of up to 4 cases per leg is re-evaluated inside Coq by vm_compute",
         ] + spec.get("trusted", [])
         if coqchk_out is not None:
             cov["coqchk"] = coqchk_out.strip().splitlines()[-12:]
@@ -267,6 +272,8 @@ def main():
                                        "non-trivial per the family's rule (see tools/families/*.py: nontrivial)")
         cov["samples"] = samples or [{"note": "no case was evaluated"}]
         cov["input_distribution"] = dist
+        for sk in common.SKIPPED:
+            notes.append("MODEL-EVAL-TIMEOUT " + sk)
         cov["notes"] = notes
 
     # ---- 7. report
